@@ -8,6 +8,7 @@ is covered by the correspondence and the Spec on the implementation's output, no
 the structure of `backfill`. Statements not proved are kept below as `-- OPEN` comments.
 -/
 import Bermuda.Lemmas.Extend
+import Bermuda.Lemmas.ExtendFill
 import Bermuda.Spec.C15
 namespace Bermuda.Properties.C15
 open Bermuda Bermuda.Extend
@@ -208,6 +209,52 @@ theorem backfill_values {first : Cell} {statics : List String} {repl : Dict Val}
   rw [List.nil_append] at this
   exact this
 
+/-! ### `fill_forward_gaps` -/
+
+/-- **fill_preserves_observed**: when no two cells of a slice row share a development lag (the rows are
+keyed by lag in a dict), every observed cell is in the output, unchanged. -/
+theorem fill_preserves_observed {t out : List Cell} {res? : Option Int} {nf : Bool}
+    (h : fillForwardGaps t res? nf = .ok out)
+    (hnd : ∀ r ∈ slicePeriodRows t, r.2.Pairwise (fun a b => a.devLag ≠ b.devLag)) :
+    ∀ c ∈ t, c ∈ out := by
+  intro c hc
+  obtain ⟨r, hr, _, hcr⟩ := row_of_mem hc
+  rcases fillForwardGaps_ok h with ⟨hempty, _⟩ | ⟨res, parts, _, hparts, hperm⟩
+  · rw [hempty] at hr; cases hr
+  · obtain ⟨ys, hys, hfy⟩ := mapM_ok_mem' hparts r hr
+    exact hperm.mem_iff.mpr (List.mem_flatten.mpr ⟨ys, hys, fillRow_preserves hfy (hnd r hr) c hcr⟩)
+
+/-- **fill_added_inside_gaps**: for a positive resolution (given or inferred) on whose grid all observed
+lags of every slice row lie, every cell of the output is an observed cell or a fill cell of one slice
+row (`FillCellOf`): same metadata and period as the row, at an unobserved grid lag strictly between the
+row's first and last observed lag. -/
+theorem fill_added_inside_gaps {t out : List Cell} {res? : Option Int} {nf : Bool} {res : Int}
+    (h : fillForwardGaps t res? nf = .ok out) (hres : resolvedRes t res? = some res) (hpos : 0 < res)
+    (hgrid : ∀ r ∈ slicePeriodRows t, GridRow res r.2) :
+    ∀ c ∈ out, c ∈ t ∨ ∃ r ∈ slicePeriodRows t, FillCellOf res nf r.2 c := by
+  intro c hc
+  rcases fillForwardGaps_ok h with ⟨_, rfl⟩ | ⟨res', parts, hres', hparts, hperm⟩
+  · cases hc
+  · rw [hres] at hres'; cases hres'
+    obtain ⟨ys, hys, hcy⟩ := List.mem_flatten.mp (hperm.mem_iff.mp hc)
+    obtain ⟨r, hr, hfy⟩ := mapM_ok_mem hparts ys hys
+    rcases fillRow_cells hpos (hgrid r hr) hfy c hcy with hrow | hfill
+    · exact Or.inl ((mem_row_iff hr c).mp hrow).1
+    · exact Or.inr ⟨r, hr, hfill⟩
+
+/-- **fill_values**: a fill cell carries no invented values: it is the observation `o` of its row with
+the greatest lag below its own, moved to the new evaluation date — same metadata, period, class and
+previous date; its values are those of `o`, or (with `fill_with_none`) the same keys all `None`. -/
+theorem fill_values {res : Int} {nf : Bool} {row : List Cell} {c : Cell} (h : FillCellOf res nf row c) :
+    ∃ o ∈ row, ∃ lag : Int, o.devLag < (lag : Rat) ∧
+      (∀ o' ∈ row, o'.devLag ≤ (lag : Rat) → o'.devLag ≤ o.devLag) ∧
+      c.md = o.md ∧ c.ps = o.ps ∧ c.pe = o.pe ∧ c.kind = o.kind ∧ c.prev = o.prev ∧
+      c.ev = addMonths o.pe (lag : Rat) ∧
+      c.values = (if nf then o.values.map fun (kv : String × Val) => (kv.1, Val.none) else o.values) := by
+  obtain ⟨f, l, _, _, lag, _, _, _, _, o, ho, hlt, hnear, rfl⟩ := h
+  refine ⟨o, ho, lag, hlt, hnear, ?_⟩
+  cases nf <;> simp [fillCell]
+
 /-! ### non-vacuity: a concrete month-aligned two-row triangle meets the hypotheses -/
 
 def exCells : List Cell :=
@@ -259,14 +306,6 @@ example : replacementValues exFirst ["earned_premium"]
 --   as `rightTri_empty_when_complete_partial` for incremental input (holds in /repo since the D12 fix)
 -- OPEN rightDiag_spec
 --   as `rightDiag_spec_partial` for incremental input, plus the chain clause
--- OPEN fill_preserves_observed
---   fillForwardGaps t res? noneFlag = .ok out → (no two cells of t share metadata, period and lag) →
---     Spec.C15.kept t out = t        (every observed cell is in the output, unchanged)
--- OPEN fill_added_inside_gaps
---   fillForwardGaps t res? noneFlag = .ok out → Spec.C15.resolveRes t res? = some res → Spec.C15.fillCompatible t res = true →
---     Spec.C15.fillInsideGaps t res out = true ∧ Spec.C15.fillComplete t res out = true
--- OPEN fill_values
---   ... same hypotheses → Spec.C15.fillValues t noneFlag out = true   (carried forward or all None)
 -- OPEN backfill_before_first_dates
 --   under month alignment the evaluation date of every added cell precedes the row's first observation:
 --   (∀ c ∈ t, MonthAligned c) → ... → a = backfillCell first repl res i → a.ev < first.ev
